@@ -44,7 +44,15 @@ structure Line where
   labels : List String := []
   op : String
   args : List Arg := []
+  iomode : Option IoMode := none   -- line-level metadata (`lbl: iomode:sync` / `: iomode:sync` in front of the line)
 deriving DecidableEq, Repr, Inhabited
+
+/-- the iomode that decides the `mov` forms of a line: the line's own, else the one in force around
+    it (section, else global) — `metadataInfer`'s line → section → global precedence -/
+def lineMode (mode : Option IoMode) (l : Line) : Option IoMode :=
+  match l.iomode with
+  | some m => some m
+  | none => mode
 
 structure Section where
   name : String
@@ -169,12 +177,12 @@ def matchLine (mode : Option IoMode) (l : Line) : Option (String × List Arg) :=
   | "r2o", [.reg k, .out o] => some ("r2o", [.reg k, .out o])
   | "r2owa", [.reg k, .out o] => some ("r2owa", [.reg k, .out o])
   | "mov", [.reg k, .inp i] =>
-    match mode with
+    match lineMode mode l with
     | some .async => some ("i2r", [.reg k, .inp i])
     | some .sync => some ("i2rw", [.reg k, .inp i])
     | none => none
   | "mov", [.out o, .reg k] =>
-    match mode with
+    match lineMode mode l with
     | some .async => some ("r2o", [.reg k, .out o])
     | some .sync => some ("r2owa", [.reg k, .out o])
     | none => none
